@@ -212,7 +212,7 @@ CLAIMED = {
           "moved in place (what Cadence.add_signal does) and after it has been put back."),
     note=("Trusted: TLC, python Fractions; tolerance max(1e-6 channel, 4 ulp of the absolute frequency) for frequencies, "
           "4 ulp for times, 1e-14 relative for resolutions; injected-data equality of twins at 1e-9 + 256 ulp(f)/df."),
-    technique="TLA+ model (TLC exhaustive) + spec-generated frames instantiated on the implementation",
+    technique="TLA+ model (TLC exhaustive) + spec-generated frames instantiated on the implementation + trace validation of every frame constructed in recorded executions (incl. the repository's tests)",
     design_ref="DESIGN.md 4.1, 5 (C05)", engine="frameaxes"),
  "C01": dict(
     text=("Injection.tla transcribes add_signal's case analysis over exact integers with an integer-valued probe family "
